@@ -1019,6 +1019,9 @@ class Engine:
             return z3.BoolVal(a.qname == b.qname)       # builtin type / function objects are singletons
         if isinstance(a, VOpt) or isinstance(b, VOpt):
             raise Unsupported("`is` on optional value")
+        for o, p in ((a, b), (b, a)):
+            if isinstance(p, VOpaque) and isinstance(o, (VFunc, VClass)) and getattr(o, "qname", None):
+                return p.e == z3.Const("%s#ref" % o.qname, U)      # an opaque value may BE that builtin function / class object (e.g. `object_type is type`)
         if type(a) is not type(b):
             return z3.BoolVal(False)
         raise Unsupported("`is` on %r, %r" % (a, b))
